@@ -162,6 +162,15 @@ class C12:
             # the model's values must win over the data's
             moptics['illum_wavelen'] = 0.532
         moptics['noise_sd'] = model_noise
+        if isinstance(model_noise, dict) and 'dict' in model_noise and \
+                rng.random() < 0.4:
+            # the same per-channel values as a labelled array (labels in
+            # the order they were written, not sorted)
+            moptics['noise_sd'] = {'xda': {
+                'values': [v_ for _, v_ in model_noise['dict']],
+                'dims': ['illumination'],
+                'coords': {'illumination': [k_ for k_, _ in
+                                            model_noise['dict']]}}}
         mo = b.emit('model', {'kind': mk, 'sc': sc, 'alpha': alpha,
                               'optics': moptics, 'th': thk,
                               'constraints': cons,
